@@ -628,20 +628,21 @@ theorem rho_bound_from_sleep {a0 : Arena} (h0 : Inv a0) (hacc0 : Acc a0.ctx)
     ((allocsIn a0 more : Nat) : Rat) * (1 - ρ) < ρ * (a0.ctx.metrics.totalGcs : Rat) :=
   have hc := cycle_from_sleep h0 hacc0 hs hd more hk hal hcb new hsteps hz hp hr hns
   ⟨hc.1, hc.2.2.2 hne⟩
-/-- A debt-driven call made asleep with positive debt wakes the collector: the steps it appends
-    start with `'W'`. -/
-theorem doCollection_wakes {c : Ctx} {root : List Slot} {stop : Stop} {fault : TraceFault}
+/-- A collection call made asleep with positive debt wakes the collector — a debt-driven one
+    because of the debt, `finish_marking` / `finish_cycle` anyway: the steps it appends start with
+    `'W'`. -/
+theorem doCollection_wakes {c : Ctx} {root : List Slot} {ru : RunUntil} {stop : Stop} {fault : TraceFault}
     (h : CInv c root []) (hs : c.phase = .sleep) (hd : 0 < c.metrics.allocationDebt) :
-    ∃ new, (c.doCollection root .payDebt stop fault).1.steps = new ++ 'W' :: c.steps := by
+    ∃ new, (c.doCollection root ru stop fault).1.steps = new ++ 'W' :: c.steps := by
   have hhd : c.metrics.hasDebt = true := by simpa [Metrics.hasDebt] using hd
   unfold Ctx.doCollection
-  simp only [hhd, decide_true, Bool.not_true, Bool.and_false, Bool.false_eq_true, if_false]
-  show ∃ new, (Ctx.collectLoop root .payDebt stop fault (2 * c.fuelBound root + 7 + 1) c false 0).1.steps = _
+  simp only [hhd, Bool.not_true, Bool.and_false, Bool.false_eq_true, if_false]
+  show ∃ new, (Ctx.collectLoop root ru stop fault (2 * c.fuelBound root + 7 + 1) c false 0).1.steps = _
   unfold Ctx.collectLoop
   simp only [hs]
   split
   · exact ⟨[], rfl⟩
-  · obtain ⟨new, e, _⟩ := (collectLoop_reaches (ru := .payDebt) (stop := stop) (fault := fault)
+  · obtain ⟨new, e, _⟩ := (collectLoop_reaches (ru := ru) (stop := stop) (fault := fault)
       (2 * c.fuelBound root + 7) (c.switch .mark) true 0 (wake_spec h hs)).cframe (wake_spec h hs)
     exact ⟨new, e⟩
 
@@ -817,19 +818,18 @@ theorem WInv.nonempty {c : Ctx} (hw : WInv c) (hs : c.phase = .sleep)
   have : ((0 : Nat) : Rat) = 0 := rfl
   grind
 
-/-- A self-driven debt-driven collection operation executed outside callbacks in a sleeping state
+/-- A self-driven collection operation (any method) executed outside callbacks in a sleeping state
     with positive debt wakes the collector: the oldest step it appends is `'W'`. -/
 theorem collect_wakes {a : Arena} (h : Inv a) (hcb : a.cb = none) (hs : a.ctx.phase = .sleep)
-    (hd : 0 < a.ctx.metrics.allocationDebt) (m : Method) (hm : (Arena.methodArgs m).1 = .payDebt)
-    (k : Cont) (fault : TraceFault) :
+    (hd : 0 < a.ctx.metrics.allocationDebt) (m : Method) (k : Cont) (fault : TraceFault) :
     ∃ new, (a.step (.collect m k fault none)).1.ctx.steps = new ++ 'W' :: a.ctx.steps := by
   have key : ∀ (b : Arena) (fin : Bool), Inv b → b.marked = false → b.cb = none →
       b.ctx.phase = .sleep → 0 < b.ctx.metrics.allocationDebt →
       ∃ new, (b.stepBody fin (.collect m k fault none)).1.ctx.steps = new ++ 'W' :: b.ctx.steps := by
     intro b fin hb hbm hbcb hbs hbd
     have h0 : CInv b.ctx b.root [] := by have := hb.cinv; rw [hb.cbTemps hbcb] at this; exact this
-    obtain ⟨new1, e1⟩ := doCollection_wakes (root := b.root) (stop := (Arena.methodArgs m).2)
-      (fault := fault) h0 hbs hbd
+    obtain ⟨new1, e1⟩ := doCollection_wakes (root := b.root) (ru := (Arena.methodArgs m).1)
+      (stop := (Arena.methodArgs m).2) (fault := fault) h0 hbs hbd
     simp only [Arena.stepBody]
     split
     · rename_i hsome; rw [hbcb] at hsome; simp at hsome
@@ -842,7 +842,7 @@ theorem collect_wakes {a : Arena} (h : Inv a) (hcb : a.cb = none) (hs : a.ctx.ph
         have hc := runCollector_inv hb hbcb hr
         have hi := hb.afterCollect hbm hbcb hc
         have e1' : c.steps = new1 ++ 'W' :: b.ctx.steps := by
-          simp only [Arena.runCollector, hm, Option.some.injEq] at hr
+          simp only [Arena.runCollector, Option.some.injEq] at hr
           rw [hr] at e1; exact e1
         simp only
         have mk : ∀ o2, ∃ new, (({ b with ctx := c, cover := [] } : Arena).marked? k o2).1.ctx.steps
